@@ -103,6 +103,7 @@ def run(chk, gate, status):
     chk.assumptions += ["no dilute step with new_name (known finding D31: the tracking queries identify containers by name)",
                         "fill_to steps address containers or whole plates (known finding D13 changes what a slice fill does; it is reported under C08/C07)"]
     cov = recipes.check(chk, 'C09', cases, oracle, RULE, nontrivial)
+    cov['queries_under_configuration_variants'] = recipes.variants(chk, cases, oracle, 'C09v', limit=8 if chk.tier == 'quick' else 60)
     return cov
 
 
